@@ -381,3 +381,137 @@ func genCidPriv(run *vlib.Run) {
 		}
 	}
 }
+
+// ---- subroutine INDEXes with empty entries ---------------------------------------
+//
+//	!subridx local|global <position of the empty entry: 0..3, or -1 for none>
+//
+// A simple font whose local (Private DICT operator Subrs) or global subroutine
+// INDEX has four entries; one of them may be EMPTY (two equal consecutive
+// offsets - legal CFF, what subsetters leave behind when they blank unused
+// subroutines without renumbering).  The glyph calls the two non-empty ones:
+//   100 <a> callsubr <b> callsubr 40 vlineto endchar
+// with subr a = "10 20 rmoveto return", subr b = "30 hlineto return",
+// nominalWidthX 500: width 600, path (10,20) (40,20) (40,60).
+
+func subrIdxFont(global bool, empty int) []byte {
+	int5 := func(v int) []byte { return []byte{29, byte(v >> 24), byte(v >> 16), byte(v >> 8), byte(v)} }
+	subA := append(append(dictInt(10), dictInt(20)...), 21, 11)
+	subB := append(dictInt(30), 6, 11)
+	filler := []byte{11}
+	// four entries; a and b are placed at the first two positions that are not "empty"
+	entries := make([][]byte, 4)
+	var pos []int
+	for i := 0; i < 4; i++ {
+		if i != empty {
+			pos = append(pos, i)
+		}
+	}
+	ia, ib := pos[0], pos[1]
+	for i := range entries {
+		switch {
+		case i == empty:
+			entries[i] = nil
+		case i == ia:
+			entries[i] = subA
+		case i == ib:
+			entries[i] = subB
+		default:
+			entries[i] = filler
+		}
+	}
+	index := []byte{0, 4, 1}
+	off := 1
+	index = append(index, byte(off))
+	for _, e := range entries {
+		off += len(e)
+		index = append(index, byte(off))
+	}
+	for _, e := range entries {
+		index = append(index, e...)
+	}
+	callOp := byte(10) // callsubr
+	if global {
+		callOp = 29 // callgsubr
+	}
+	g0 := []byte{14}
+	g1 := append(dictInt(100), dictInt(ia-107)...)
+	g1 = append(g1, callOp)
+	g1 = append(append(g1, dictInt(ib-107)...), callOp)
+	g1 = append(append(g1, dictInt(40)...), 7, 14)
+
+	priv := append(dictInt(500), 21) // nominalWidthX 500
+	if !global {
+		priv = append(append(priv, dictInt(len(priv)+2)...), 19) // Subrs: right behind the dict (1-byte operand + operator)
+	}
+	gsubrs := []byte{0, 0}
+	if global {
+		gsubrs = index
+	}
+	b := []byte{1, 0, 4, 1}
+	b = append(b, 0, 1, 1, 1, 2, 'A')
+	const topLen = 6 + 11
+	charStringsAt := len(b) + (2 + 1 + 2 + topLen) + 2 + len(gsubrs)
+	csLen := 2 + 1 + 3 + len(g0) + len(g1)
+	top := append(int5(charStringsAt), 17)
+	top = append(append(append(top, int5(len(priv))...), int5(charStringsAt+csLen)...), 18)
+	b = append(b, 0, 1, 1, 1, byte(1+len(top)))
+	b = append(b, top...)
+	b = append(b, 0, 0)
+	b = append(b, gsubrs...)
+	b = append(b, 0, 2, 1, 1, byte(1+len(g0)), byte(1+len(g0)+len(g1)))
+	b = append(b, g0...)
+	b = append(b, g1...)
+	b = append(b, priv...)
+	if !global {
+		b = append(b, index...)
+	}
+	return b
+}
+
+func subrIdxCase(kind string, empty int) (impl, fail, sig string, err error) {
+	if (kind != "local" && kind != "global") || empty < -1 || empty > 3 {
+		return "", "", "", errors.New("bad subridx case")
+	}
+	data := subrIdxFont(kind == "global", empty)
+	var f *cff.Font
+	var rerr error
+	func() {
+		defer func() {
+			if e := recover(); e != nil {
+				rerr = fmt.Errorf("panic: %v", e)
+				impl = "panic"
+			}
+		}()
+		f, rerr = cff.Read(bytes.NewReader(data))
+	}()
+	if impl == "panic" {
+		return impl, "cff.Read panics on a font assembled from the specification: " + rerr.Error(), "c05-privw-panic", nil
+	}
+	if rerr != nil || f == nil || len(f.Glyphs) != 2 {
+		return "err", fmt.Sprintf("cff.Read rejects a well-formed font whose %s subroutine INDEX has an empty entry at %d: %v", kind, empty, rerr), "c05-subr-index-empty-entry", nil
+	}
+	g := f.Glyphs[1]
+	impl = fmt.Sprintf("(ok %v %d)", g.Width, len(g.Cmds))
+	okPath := len(g.Cmds) == 3 && len(g.Cmds[2].Args) == 2 && g.Cmds[0].Args[0] == 10 && g.Cmds[0].Args[1] == 20 && g.Cmds[2].Args[0] == 40 && g.Cmds[2].Args[1] == 60
+	if g.Width != 600 || !okPath {
+		return impl, fmt.Sprintf("glyph decoded as width %v, commands %v; the specification gives width 600 and the path (10,20) (40,20) (40,60)", g.Width, g.Cmds), "c05-subr-index-empty-entry", nil
+	}
+	return impl, "", "", nil
+}
+
+func genSubrIdx(run *vlib.Run) {
+	for _, kind := range []string{"local", "global"} {
+		for empty := -1; empty <= 3; empty++ {
+			line := vlib.Line(vlib.Atom("!subridx"), vlib.Atom(kind), vlib.Int(empty))
+			impl, fail, sig, err := subrIdxCase(kind, empty)
+			if err != nil {
+				panic(err)
+			}
+			idx := run.Add(line, impl, true, "stream:subridx", "oracle-only")
+			if fail != "" {
+				report(run, idx, line, fail, sig)
+			}
+		}
+	}
+}
